@@ -1600,6 +1600,16 @@ class TypeSystem:  # noqa: PLR0904
             sub_class: subclass
         """
         self._graph.add_edge(super_class, sub_class)
+        self._clear_query_caches()
+
+    def _clear_query_caches(self) -> None:
+        """Drop all memoised answers that were computed on the previous type graph."""
+        self.get_subclasses.cache_clear()
+        self.get_superclasses.cache_clear()
+        self.is_subclass.cache_clear()
+        self.is_subtype.cache_clear()
+        self.is_maybe_subtype.cache_clear()
+        self.subtype_distance.cache_clear()
 
     @functools.lru_cache(maxsize=1024)
     def get_subclasses(self, klass: TypeInfo) -> OrderedSet[TypeInfo]:
